@@ -109,6 +109,16 @@ class AbstractNDArray(ABC):
             return np.flipud(values)
         return values
 
+    @staticmethod
+    def pixel_scales_via_header_from(header):
+        """
+        The pixel scales stored in a .fits header by `Mask.pixel_scale_header`: a single `PIXSCALE` entry if the
+        pixel scale is the same in every dimension, else separate `PIXSCALEY` and `PIXSCALEX` entries.
+        """
+        if "PIXSCALE" in header:
+            return header["PIXSCALE"]
+        return (header["PIXSCALEY"], header["PIXSCALEX"])
+
     @classmethod
     def instance_unflatten(cls, aux_data, children):
         """
